@@ -480,6 +480,14 @@ func c12StructuredDocs(quick bool) [][]byte {
 	for _, d := range c06Docs {
 		add(CRLF([]byte(d)))
 	}
+	for _, d := range SinkLineShapeDocs() {
+		add(CRLF(d))
+	}
+	NestDocs(2, func(d []byte) {
+		if bytes.IndexByte(d, '\n') >= 0 {
+			add(CRLF(d))
+		}
+	})
 	return docs
 }
 
